@@ -469,6 +469,15 @@ def driver_untouched(lines, obs):
 def _guard(fn):
     def run(lines, obs):
         try:
+            sf_ok = False
+            for ln, ob in zip(lines, obs):
+                if ln == "sf":
+                    sf_ok = ob.startswith("ok")
+                if ln == "pdf" and ob == "err" and sf_ok:
+                    return fail(ln, "the outflow-probability table exists whenever the survival table does (any number and lengths of extra dimensions)",
+                                "a table", "err")
+                if ln == "note case_ran_to_completion" and ob != "ok":
+                    return fail(lines[0], "computing a stock model over admissible inputs does not raise", "results", ob)
             r = driver_untouched(lines, obs)
             if r:
                 return r
